@@ -21,16 +21,18 @@ pub struct TyProfile {
     pub arrays: bool,
     pub attrs: bool,
     pub max_array: u32,
+    /// chance (n/64) that a top-level array length is a boundary value (33, 255..257, 65535..65537)
+    pub len_edges: u32,
     /// n/8 chance that a member is drawn from the "16-byte friendly" list (vec4, mat4x4, ...)
     pub friendly: u32,
 }
 
 impl TyProfile {
     pub fn full() -> Self {
-        TyProfile { bools: false, square_mats: false, f64_: true, ints: true, atomic: true, rt: true, mats: true, nested: true, arrays: true, attrs: false, max_array: 6, friendly: 2 }
+        TyProfile { bools: false, square_mats: false, f64_: true, ints: true, atomic: true, rt: true, mats: true, nested: true, arrays: true, attrs: false, max_array: 6, len_edges: 0, friendly: 2 }
     }
     pub fn simple() -> Self {
-        TyProfile { bools: false, square_mats: false, f64_: false, ints: true, atomic: false, rt: false, mats: false, nested: false, arrays: false, attrs: false, max_array: 4, friendly: 4 }
+        TyProfile { bools: false, square_mats: false, f64_: false, ints: true, atomic: false, rt: false, mats: false, nested: false, arrays: false, attrs: false, max_array: 4, len_edges: 0, friendly: 4 }
     }
 }
 
@@ -306,7 +308,16 @@ pub fn gen_sized_ty(ch: &mut Ch, tp: &TyProfile, structs: &[StructDef], nest_ok:
             // keep every type below 1 MiB: u32 layout arithmetic (naga's and the model's) stays exact
             let stride = wgsl_stride(&e, structs).max(1);
             let cap = ((1u32 << 20) / stride).max(1);
-            Ty::A(Box::new(e), ch.range(1, tp.max_array.max(1)).min(cap))
+            let mut len = ch.range(1, tp.max_array.max(1));
+            if tp.len_edges > 0 && depth == 0 && ch.chance(tp.len_edges, 64) {
+                len = *ch.pick(&[33u32, 255, 256, 257, 65535, 65536, 65537, 70000]);
+                // tens of thousands of elements only for scalar elements (probes build those arrays with
+                // a closure; anything else would be written out element by element)
+                if !matches!(e, Ty::S(Sc::F32 | Sc::I32 | Sc::U32)) {
+                    len = len.min(257);
+                }
+            }
+            Ty::A(Box::new(e), len.min(cap))
         }
         _ => Ty::St(*ch.pick(nest_ok)),
     }
@@ -1013,6 +1024,8 @@ pub fn gen_shader(ch: &mut Ch, p: &Profile) -> Shader {
     if ch.chance(p.overrides, 8) {
         let n = ch.usize_range(0, 2);
         let mut ids: Vec<u16> = Vec::new();
+        // names of their own (no keywords): other generators merge overrides named ov_*, in, dyn, ...
+        let kw = std::mem::replace(&mut names.keywords, 0);
         for _ in 0..n {
             let ty = *ch.pick(&[Sc::U32, Sc::I32, Sc::F32, Sc::Bool]);
             let id = if ch.chance(1, 4) {
@@ -1027,10 +1040,11 @@ pub fn gen_shader(ch: &mut Ch, p: &Profile) -> Shader {
                 None
             };
             let init = if ch.chance(6, 8) { Some(ty.lit(ch.range(1, 8))) } else { None };
-            sh.overrides.push(OverrideDef { name: names.fresh(ch, "ov_", 0), id, ty, init });
+            sh.overrides.push(OverrideDef { name: names.fresh(ch, "govr_", 0), id, ty, init });
         }
         // the one that sizes workgroups and arrays
-        sh.overrides.push(OverrideDef { name: names.fresh(ch, "ovn_", 0), id: None, ty: Sc::U32, init: Some(format!("{}u", ch.range(1, 8))) });
+        sh.overrides.push(OverrideDef { name: names.fresh(ch, "govn_", 0), id: None, ty: Sc::U32, init: Some(format!("{}u", ch.range(1, 8))) });
+        names.keywords = kw;
         if has_compute_possible && ch.chance(p.ov_sized_array, 8) {
             let ov = sh.overrides.last().unwrap().name.clone();
             let elem = if !sized.is_empty() && ch.chance(5, 8) {
